@@ -33,11 +33,13 @@ let run line =
      | None -> "NEWFAIL"
      | Some t0 ->
        let t = ref t0 in
+       let dead = ref false in   (* after an error status the API requires a reset: further parses are skipped *)
        let out = ref [] in
        (try
          List.iter (fun op ->
            let body = String.sub op 1 (String.length op - 1) in
            match op.[0] with
+           | ('P' | 'Z') when !dead -> out := "skipped" :: !out
            | 'P' | 'Z' ->
              let bs = bytes_of_hex body in
              let r = if op.[0] = 'P' then parse_ex strtod_bits !t bs else parse_ex_cstr strtod_bits !t bs in
@@ -45,10 +47,11 @@ let run line =
               | PRFuel -> out := "FUEL" :: !out; raise Exit
               | PR (t', ret) ->
                 t := t';
+                dead := (match t'.err with TE_success | TE_continue -> false | _ -> true);
                 let v = match ret with Some v -> string_of_jv v | None -> "-" in
                 out := Printf.sprintf "%s %s %s" (err_name t'.err) (string_of_z t'.char_offset) v :: !out)
-           | 'R' -> t := tok_reset !t; out := "reset" :: !out
-           | 'N' -> t := t0; out := "new" :: !out
+           | 'R' -> t := tok_reset !t; dead := false; out := "reset" :: !out
+           | 'N' -> t := t0; dead := false; out := "new" :: !out
            | 'F' -> let (s, a, v) = flags_of (int_of_string body) in t := set_flags !t s a v; out := "flags" :: !out
            | _ -> failwith "tok op") (split_on ';' ops)
        with Exit -> ());
